@@ -206,7 +206,13 @@ func adversarial(c *ctx, tier string) {
 	sortStrings(bf)
 	for _, f := range bf {
 		for _, n := range big[f] {
-			runAdv(c, f, n)
+			if tier == "thorough" {
+				// these go through coqc in the thorough tier (about a minute each): spread them over
+				// the shards of the generated programs instead of piling them into one shard
+				c.deferred = append(c.deferred, func() { runAdv(c, f, n) })
+			} else {
+				runAdv(c, f, n)
+			}
 		}
 	}
 	for _, k := range loops {
